@@ -240,7 +240,7 @@ def texts_for(ctx):
     """(tid, text, written format or None) : texts of the 7 writers from generated structures, then non-structure text."""
     quick = ctx.tier == "quick"
     out = []
-    strus = C.generated_structures(ctx.rng, 6 if quick else 30)
+    strus = C.generated_structures(ctx.rng, 6 if quick else 48)
     for k, s in enumerate(strus):
         for f, t in C.write_all(s).items():
             if t is not None:
@@ -253,7 +253,7 @@ def texts_for(ctx):
     for i, t in enumerate(prose):
         out.append((("prose", i, None), t, None))
     docs = C.valid_documents(ctx.rng, "quick")
-    n_soup = 25 if quick else 250
+    n_soup = 25 if quick else 400
     for i in range(n_soup):
         fmt, name, text = docs[rng.randrange(len(docs))]
         faults = list(C.all_single_faults(fmt, text))
@@ -362,6 +362,8 @@ def run(ctx):
             elif o["kind"].startswith("escape:"):
                 n = o["kind"].split(":", 1)[1].split(".")[-1]
                 live = "PROP " + (n if n in KINDS else "Exception")
+            elif o["kind"] == "NotImplementedError":
+                live = "PROP NotImplemented"
             elif o["kind"] == "none":
                 live = "NONE"
             p = pred.get((tid, h))
@@ -378,6 +380,10 @@ def run(ctx):
                 seen_v[key] += 1
 
             # ---- the property on the real code ---------------------------------------------------------
+            if o["kind"] == "NotImplementedError":
+                viol("automatic detection let NotImplementedError escape (%s, file name %r): not the library's format error" % (en, h),
+                     "auto:propagates:NotImplementedError")
+                continue
             if o["kind"].startswith("escape:"):
                 parts = o.get("site", "").split(":")
                 func = parts[1] if len(parts) > 1 else "?"
@@ -417,7 +423,7 @@ def run(ctx):
                                and not re.search(r"(^|\n)%s: " % re.escape(f), o.get("msg", ""))]
                     if missing:
                         viol("the failure message of detection does not list the complaint of %s (%s, file name %r)" % (missing, en, h),
-                             "auto:complaint-missing:%s" % ",".join(missing))
+                             "auto:complaint-missing")
             elif o["kind"] == "none":
                 none_stop += 1
     ctx.obligation("correspondence:loop-model-vs-live-P_auto", ok and not mism and len(pred) == len(cases),
